@@ -313,29 +313,34 @@ def run(tier, seed):
             f'export incomplete: {len(vectors)} vectors for {res.distinct} states')
     exhaustive_n = len(vectors)
 
-    # ---- TLC -simulate: long ranges (up to 25 = 5x5) over the larger pool
-    ntraces = 5 if tier == 'quick' else 240
-    sim = tlc.run('MC_Aggregates', 'Aggregates_big.cfg', workers=1,
-                  simulate=dict(num=ntraces), depth=26, seed=seed + 1,
-                  coverage=False, timeout=600)
-    if not sim.ok:
-        raise tlc.MachineryFailure(
-            f'Aggregates model (simulation) violates {sim.violated}:\n' + sim.stdout[-2500:])
+    # ---- TLC -simulate: long ranges (up to 25 = 5x5) over the larger pools;
+    # most traces over the error-free pool (a random long range over a pool
+    # with errors nearly always holds one), the rest over the pool with errors
     seen = {canon(x) for x in vectors}
     long_vecs = []
-    for x in sim.json:
-        k = canon(x)
-        if k not in seen and shapes_of(len(x['cells'])):
-            seen.add(k)
-            long_vecs.append(x)
-    if len(long_vecs) < ntraces * 5:
-        raise tlc.MachineryFailure(
-            f'simulation export too small: {len(long_vecs)} vectors from {ntraces} traces')
-    v.states += len(long_vecs)
-    v.transitions += len(sim.json)
-    v.tlc_runs.append(dict(run='Aggregates_big -simulate', traces=ntraces,
-                           exported=len(sim.json), new_vectors=len(long_vecs),
-                           wall_s=round(sim.wall, 2)))
+    for cfg, ntraces in (('Aggregates_big.cfg', 4 if tier == 'quick' else 160),
+                         ('Aggregates_bigerr.cfg', 2 if tier == 'quick' else 60)):
+        sim = tlc.run('MC_Aggregates', cfg, workers=1, simulate=dict(num=ntraces),
+                      depth=26, seed=seed + 1, coverage=False, timeout=600)
+        if not sim.ok:
+            raise tlc.MachineryFailure(
+                f'Aggregates model ({cfg}, simulation) violates {sim.violated}:\n'
+                + sim.stdout[-2500:])
+        new = 0
+        for x in sim.json:
+            k = canon(x)
+            if k not in seen and shapes_of(len(x['cells'])):
+                seen.add(k)
+                long_vecs.append(x)
+                new += 1
+        if new < ntraces * 5:
+            raise tlc.MachineryFailure(
+                f'simulation export too small: {new} vectors from {ntraces} traces')
+        v.states += new
+        v.transitions += len(sim.json)
+        v.tlc_runs.append(dict(run=cfg[:-4] + ' -simulate', traces=ntraces,
+                               exported=len(sim.json), new_vectors=new,
+                               wall_s=round(sim.wall, 2)))
     vectors = vectors + long_vecs
 
     # quick: every vector through the library; workbooks for every range of
